@@ -252,6 +252,45 @@ INFO = {
                      "connection waiting (EMFILE) the network thread spins in accept() and stop() cannot end it", ["C18", "C09"]),
     "C03-6": ("C03", "Tcp connect_with swallows a synchronous connect(2) error (ENETUNREACH towards a multicast / broadcast "
                      "address): connect() returns an endpoint that is never answered by a Connected event", ["C03", "C18", "C13"]),
+    "C01-7": ("C01", "(= C13-6, found again from C01) FramedTcp pending(): the borrowed socket2 handle is dropped when the OS "
+                     "rejects the keepalive: the connection is reported on a closed descriptor; messages are lost or land "
+                     "in another connection", ["C01", "C13", "C18"]),
+    "C02-7": ("C02", "try_decode tests `decoded` instead of `not_decoded` to go on: an empty message that is not the last "
+                     "byte of its chunk ends the decoding of that chunk", ["C02", "C01"]),
+    "C04-7": ("C04", "read_from_remote ignores the result of deregister(): a remove() that succeeded inside the callback "
+                     "(or concurrently) is followed by a Disconnected when the peer's close is read in the same pass", ["C04", "C03"]),
+    "C06-7": ("C06", "the priority channel is bounded (1024) and send_with_priority uses try_send: priority events beyond "
+                     "1024 pending ones are dropped silently", ["C06"]),
+    "C07-7": ("C07", "EventSender::clone clones the plain sender into the priority slot: send_with_priority on a cloned "
+                     "sender goes to the plain queue (behind expired timers and older plain events)", ["C07", "C06"]),
+    "C09-7": ("C09", "(= C15-5, found again from C09) the caching thread polls with process_poll_events_until_timeout: with "
+                     "traffic arriving, stop() before the listener call is not followed by the listener returning", ["C09", "C15"]),
+    "C10-7": ("C10", "FramedTcp send() gives up after 2 s without progress with ResourceNotAvailable even when part of the "
+                     "frame is written: the next frames are swallowed as payload by the receiver", ["C10", "C01", "C13"]),
+    "C12-7": ("C12", "the receive_broadcasts listener stops draining (break) at a datagram addressed to another local "
+                     "address instead of skipping it: datagrams behind it wait for the next wake-up", ["C12"]),
+    "C13-7": ("C13", "Udp send_packet answers Sent for ECONNREFUSED: the datagram that consumed a pending ICMP error was "
+                     "never transmitted", ["C13", "C12"]),
+    "C14-7": ("C14", "read_from_remote reports Disconnected before deregistering: inside that callback the stale endpoint "
+                     "is still live (Tcp send Sent, is_ready Some(true), remove true)", ["C14", "C04", "C13"]),
+    "C15-7": ("C15", "the caching thread drops an event equal to the last cached one: byte-identical messages of one "
+                     "endpoint back to back before the listener call are delivered once", ["C15"]),
+    "C16-7": ("C16", "each sender clone gets a private copy of the timer sequence: two timers from different clones with the "
+                     "same deadline instant and the same per-clone number share a key and one overwrites the other", ["C16", "C06", "C08"]),
+    "C17-7": ("C17", "(= C18-6 on the Ws listener) the Ws accept loop no longer leaves on an accept() error: with the "
+                     "descriptor table full the network thread spins and serves nobody", ["C17", "C18"]),
+    "C19-7": ("C19", "a fast-path byte filter lists only lowercase hex digits: an IPv6 ip:port text with uppercase hex is "
+                     "classified as a string", ["C19"]),
+    "C03-7": ("C03", "(= C13-6, found a third time, from C03) FramedTcp pending() closes the descriptor when the OS rejects "
+                     "the keepalive: Connected(true) / Accepted for a connection the library has already closed", ["C03", "C13", "C01"]),
+    "C08-7": ("C08", "cancel_timer sends nothing when less than 1 ms remains to the deadline (as_millis() > 0): a cancel in the "
+                     "last millisecond, or of a sub-millisecond timer, is dropped", ["C08", "C07"]),
+    "C11-7": ("C11", "Driver::send holds the registry read lock for the whole adapter send: while a thread is stuck in a Tcp "
+                     "send to a stalled peer, an accept (registration) blocks the poll thread and nothing is delivered", ["C11", "C10"]),
+    "C18-7": ("C18", "Ws receive() no longer ends on a Close frame but on ConnectionClosed: as a client, against a server "
+                     "that sends Close and keeps TCP open, the resource stays registered and open for ever", ["C18", "C04", "C03"]),
+    "C05-7": ("C05", "for_each (sync): the callback mutex is replaced by a 16-bit ticket lock that compares with `<`: at every "
+                     "65536th turn under contention the other thread walks in (or both wait for ever)", ["C05"]),
     "C19-5": ("C19", "an ip:port text with port 0 (127.0.0.1:0, [::1]:0) is classified as a string", ["C19"]),
     "C19-1": ("C19", "SocketAddrV6 with non-zero flowinfo/scope_id converted to RemoteAddr: the fields are dropped", ["C19"]),
 }
